@@ -731,6 +731,104 @@ theorem naive_started_raises (env : Env) (l : Limits) (r : Rec) (hf : r.finished
   have hs : r.sleeping now = false := by simp [Rec.sleeping, hd]
   rcases h with h | h <;> simp [stepStoredRaw, hf, hs, h]
 
+/-! ## The time zone of the operator's process plays no role
+
+  Full statement (property: "never sooner than the requested delay", "no attempt starts later than T
+  after the first one … for change handlers also across operator restarts"): the instants a stored
+  record denotes — hence the gate, the limits and the whole execution on it — are the same in every
+  process, whatever its local time zone (`TZ`, /etc/localtime) and whatever the spelling of the stored
+  timestamps (any UTC offset, or none = UTC digits, as the older releases wrote). TRUE of the code
+  (`zone_irrelevant`, `stored_zone_irrelevant`). The variant that normalises with `astimezone(utc)`
+  (`stepStoredLocal`) agrees with the code in a UTC process and on everything kopf writes itself
+  (`local_same_in_utc`, `local_same_on_aware`: why no test in a UTC environment tells them apart), and
+  breaks both clauses anywhere else (`local_zone_*`). -/
+
+/-- The code's reader gives back the instant that was written, for every offset and in every zone. -/
+theorem zone_irrelevant (zone t : Int) (o : Option Int) : (Stamp.spell t o).asUtc zone = t := by
+  cases o <;> simp [Stamp.spell, Stamp.asUtc]
+
+theorem reread_asUtc (zone : Int) (os : Offsets) (r : Rec) : r.reread (Stamp.asUtc zone) os = r := by
+  cases r with | mk st sp dl rt su fa =>
+  cases sp <;> cases dl <;> simp [Rec.reread, zone_irrelevant]
+
+/-- Hence one cycle on a stored record is the gate and the attempt on the record that was written, in EVERY
+    zone and for EVERY spelling of its timestamps. -/
+theorem stored_zone_irrelevant (zone : Int) (env : Env) (l : Limits) (os : Offsets) (r : Rec) (now : Int)
+    (x : Raised) (dur : Nat) :
+    stepStoredIn zone env l os r now x dur =
+      if r.awakened now then .att (attemptAt env l now r x dur 0) else .idle r.finished := by
+  rw [stepStoredIn, reread_asUtc, stored_is_step]
+
+example : stepStoredIn (5 * 3600 * 1024) ⟨.temporary, 60⟩ ⟨none, none, some 5, none⟩ ⟨none, none, none⟩
+    ⟨0, none, some 300, 1, false, false⟩ 200 .ok 0 = .idle false := by decide
+
+/-- The variant reads a timestamp without an offset `zone` ticks off … -/
+theorem local_shifts_naive (zone t : Int) : (Stamp.spell t none).asUtcLocal zone = t - zone := by
+  simp [Stamp.spell, Stamp.asUtcLocal]
+
+/-- … and everything else (what kopf itself writes: `+00:00`) as the code does: -/
+theorem local_same_on_aware (zone t o : Int) : (Stamp.spell t (some o)).asUtcLocal zone = t := by
+  simp [Stamp.spell, Stamp.asUtcLocal]
+
+/-- in a UTC process (containers by default, CI, kopf's own tests) the two cannot be told apart at all. -/
+theorem local_same_in_utc (zone : Int) (s : Stamp) : s.asUtcLocal 0 = s.asUtc zone := by
+  cases s with | mk w o => cases o <;> simp [Stamp.asUtcLocal, Stamp.asUtc]
+
+theorem local_step_same_in_utc (zone : Int) (env : Env) (l : Limits) (os : Offsets) (r : Rec) (now : Int)
+    (x : Raised) (dur : Nat) :
+    stepStoredLocal 0 env l os r now x dur = stepStoredIn zone env l os r now x dur := by
+  have h : Stamp.asUtcLocal 0 = Stamp.asUtc zone := funext (local_same_in_utc zone)
+  rw [stepStoredLocal, stepStoredIn, h]
+
+/-- EAST of UTC the variant wakes every sleeping handler whose record has a naive `delayed` less than `zone`
+    ahead: it is executed although its delay has not passed ("never sooner than the requested delay"). -/
+theorem local_zone_east_wakes_sleeper (zone : Int) (env : Env) (l : Limits) (so sp : Option Int) (r : Rec) (d now : Int)
+    (hf : r.finished = false) (hd : r.delayed = some d) (hsleep : now < d) (hz : d - zone ≤ now)
+    (x : Raised) (dur : Nat) :
+    r.sleeping now = true ∧
+    ∃ a, stepStoredLocal zone env l ⟨so, sp, none⟩ r now x dur = .att a := by
+  refine ⟨by simp [Rec.sleeping, hf, hd, hsleep], ?_⟩
+  have hf' : (r.reread (Stamp.asUtcLocal zone) ⟨so, sp, none⟩).finished = false := by
+    simpa [Rec.reread, Rec.finished] using hf
+  have hs' : (r.reread (Stamp.asUtcLocal zone) ⟨so, sp, none⟩).sleeping now = false := by
+    simp [Rec.sleeping, Rec.reread, hd, local_shifts_naive]
+    intro _; omega
+  refine ⟨attemptAt env l now (r.reread (Stamp.asUtcLocal zone) ⟨so, sp, none⟩) x dur 0, ?_⟩
+  rw [stepStoredLocal, stored_is_step]
+  simp [Rec.awakened, hf', hs']
+
+/-- The seeded shape, east: first attempt a minute ago, `TemporaryError(delay=1h)`, the process at UTC+5 —
+    the code sleeps, the variant invokes the function 59 minutes too soon. -/
+theorem local_zone_retried_too_soon_witness :
+    ∃ (zone : Int) (env : Env) (l : Limits) (r : Rec) (now : Int),
+      r.sleeping now = true ∧
+      stepStoredIn zone env l ⟨none, none, none⟩ r now .ok 0 = .idle false ∧
+      ∃ a, stepStoredLocal zone env l ⟨none, none, none⟩ r now .ok 0 = .att a ∧ a.out.invoked = true :=
+  ⟨18000, ⟨.temporary, 60⟩, ⟨none, none, some 10, none⟩, ⟨0, none, some 3660, 1, false, false⟩, 60,
+    by decide, by decide, _, rfl, by decide⟩
+
+/-- WEST of UTC the variant moves a naive `started` into the future: the runtime is negative, the strict
+    timeout check and the look-ahead pass. The seeded shape: first attempt an hour ago, `timeout=600`, retry
+    without delay, the process at UTC-5 — the code refuses the call and records the failure, the variant
+    invokes the function 3600 after the first attempt and asks for more. -/
+theorem local_zone_invoked_after_timeout_witness :
+    ∃ (zone : Int) (env : Env) (l : Limits) (r : Rec) (now T : Int),
+      l.timeout = some T ∧ r.runtime now > T ∧ r.awakened now = true ∧
+      (∃ a, stepStoredIn zone env l ⟨none, none, none⟩ r now (.temporary none) 0 = .att a ∧
+            a.out.invoked = false ∧ a.out.exc = .timeout ∧ a.recAfter.failure = true) ∧
+      ∃ a, stepStoredLocal zone env l ⟨none, none, none⟩ r now (.temporary none) 0 = .att a ∧
+           a.out.invoked = true ∧ a.out.final = false :=
+  ⟨-18000, ⟨.temporary, 60⟩, ⟨none, some 600, none, none⟩, ⟨0, none, none, 1, false, false⟩, 3600, 600,
+    rfl, by decide, by decide, ⟨_, rfl, by decide, by decide, by decide⟩, ⟨_, rfl, by decide, by decide⟩⟩
+
+/-- In general, west of UTC: whatever the age of a record with a naive `started`, a process far enough west
+    does not see the timeout (the strict check before the call passes). -/
+theorem local_zone_west_hides_timeout (zone : Int) (l : Limits) (os : Offsets) (r : Rec) (now T : Int)
+    (hso : os.started = none) (hT : l.timeout = some T) (hz : r.runtime now - T < -zone) :
+    timedOut l ((r.reread (Stamp.asUtcLocal zone) os).runtime now) = false := by
+  simp [timedOut, hT, Rec.runtime, Rec.reread, hso, local_shifts_naive] at *
+  omega
+
 /-! ## Stacked registrations: one function, one id, two reasons (f7d6401)
 
   "With retries=N a handler is invoked at most N times": a handler is ONE registration (one decorator
